@@ -463,6 +463,10 @@ def run(chk, prog, tier):
     CH.emitter_shape_rules(chk, prog, roles, want=("DEST", "GRID", "ADV"), rule="SAME")   # chunk grid independent of how the text is split into calls
     from checks import C19
     C19.delegation_rule(chk, prog, roles)                                                   # the file entry points return what the string entry points return
+    C19.bin_rule(chk, prog)                                                                 # the file is truncated and gets buffer[0, offset)
+    from valib import err as ERR2
+    ERR2.prop_rules(chk, prog)                                                              # the library's own statuses reach its entries
+    wide_pointer_rule(chk, prog)
     # ---- output file name ---------------------------------------------------------------------------------------------
     bin_calls = [c for fn, f in tf.items() for c in walk(prog.body(f)) if c.get("kind") == "CallExpr" and callee_name(c) == "asm_create_bin_file"]
     chk.require(len(bin_calls) == 1, "OUT", "OUT/writer", loc_str(main), "the binary outputs go through asm_create_bin_file", "%d calls" % len(bin_calls))
@@ -477,6 +481,64 @@ def run(chk, prog, tier):
         "stdin and FILE use the same instance and matching variants; every status-returning library call is tested and a failure "
         "reaches a non-zero return or exit; the code pointer is taken after assembly. NOT decided: hex/chunk-row formatting, -r "
         "output, equality of stdin and FILE results (rests on C06).")
+
+
+_SIZES = {"char": 1, "signed char": 1, "unsigned char": 1, "_Bool": 1, "bool": 1, "uint8_t": 1, "int8_t": 1,
+          "short": 2, "unsigned short": 2, "uint16_t": 2, "int16_t": 2,
+          "int": 4, "unsigned int": 4, "unsigned": 4, "uint32_t": 4, "int32_t": 4, "float": 4,
+          "long": 8, "unsigned long": 8, "size_t": 8, "ssize_t": 8, "uint64_t": 8, "int64_t": 8, "long long": 8, "unsigned long long": 8, "double": 8}
+
+
+def _sizeof(prog, t):
+    t = t.replace("const ", "").replace("volatile ", "").strip()
+    if t.endswith("*"):
+        return 8
+    for _ in range(5):
+        if t in _SIZES:
+            return _SIZES[t]
+        td = prog.typedefs.get(t) or getattr(prog, "tool_typedefs", {}).get(t)
+        if td is None:
+            break
+        t = ((td.get("type") or {}).get("desugaredQualType") or qtype(td)).replace("const ", "").strip()
+    if t.startswith("enum ") or prog.enum_members(t) or t in getattr(prog, "tool_enum_types", ()):
+        return 4
+    return None
+
+
+def wide_pointer_rule(chk, prog, rule="WIDEPTR"):
+    """`(T *)&x` handed to something that stores a T (getopt's flag targets store an int): T must not be wider than x, or the
+    store also overwrites what lies behind x (the neighbouring option fields)"""
+    n = 0
+    fns = dict(tool_functions(prog))
+    fns.update(prog.lib_functions())
+    for fn, f in sorted(fns.items()):
+        for m in walk(prog.body(f)):
+            if m.get("kind") != "CStyleCastExpr" or not qtype(m).rstrip().endswith("*"):
+                continue
+            inner = strip(kids(m)[0], casts=True) if kids(m) else None
+            if not inner or inner.get("kind") != "UnaryOperator" or inner.get("opcode") != "&":
+                continue
+            obj = strip(kids(inner)[0])
+            to = qtype(m).rstrip()[:-1].strip()
+            if to.replace("const ", "") in ("void", "char", "unsigned char", "uint8_t"):
+                continue
+            tsz = _sizeof(prog, to)
+            ot = (obj.get("type") or {})
+            osz = _sizeof(prog, ot.get("desugaredQualType") or ot.get("qualType") or "")
+            if osz is None and (ot.get("desugaredQualType") or "").startswith("enum"):
+                osz = 4
+            key = "%s/%s/%s@%s" % (rule, fn, expr_str(obj)[:30], loc_str(m))
+            if tsz is None or osz is None:
+                if "[" in (ot.get("qualType") or "") or "struct" in (ot.get("desugaredQualType") or ot.get("qualType") or "") or "struct" in to:
+                    continue          # aggregates reinterpreted as a whole: not the pattern this rule is about
+                chk.broken(rule, key, loc_str(m), "the sizes of %s and of %s are known" % (to, ot.get("qualType")), "unknown type size")
+                continue
+            n += 1
+            chk.require(tsz <= osz, rule, key, loc_str(m),
+                        "a pointer to %s is made to point at an object at least as large" % to,
+                        "%s has %d bytes, a store through the pointer writes %d" % (expr_str(obj), osz, tsz))
+    chk.floor("pointer casts of object addresses", n, 3)
+    return n
 
 
 def _is_parsed_number(f, e):
